@@ -40,6 +40,7 @@ public:
   void accept_limit(long n) { accept_left_ = n; } // -1: unlimited
   void seekable(bool b) { seekable_ = b; }
   void putback(bool b) { putback_ = b; }
+  void avail_hint(bool b) { avail_hint_ = b; }
   std::size_t putback_refused() const { return putback_refused_; }
   // fail the k-th refill from now on, independent of the per-operation fault controller
   void fail_refill_at(long k) { own_refill_target_ = k; own_refill_count_ = 0; }
@@ -90,6 +91,17 @@ protected:
     base_pos_ = pos;
     this->setg(area_.data(), area_.data(), area_.data() + want);
     return traits::to_int_type(*this->gptr());
+  }
+
+  // in_avail() when the get area is empty: 0 ("don't know", the std::basic_streambuf default), or
+  // with avail_hint(true) what a file buffer answers: the characters left in the file, and -1 once
+  // there are none ("no more characters will ever be available", a legal answer)
+  std::streamsize showmanyc() override
+  {
+    if (!avail_hint_)
+      return 0;
+    std::size_t const pos = logical_pos();
+    return pos >= size() ? std::streamsize(-1) : static_cast<std::streamsize>(size() - pos);
   }
 
   // without put-back support nothing stays behind the get pointer once the get area has been
@@ -217,6 +229,7 @@ private:
   long accept_left_ = -1;
   bool seekable_ = true;
   bool putback_ = true;
+  bool avail_hint_ = false;
   std::size_t putback_refused_ = 0;
   bool threw_ = false;
   std::size_t fault_pos_ = 0;
